@@ -113,15 +113,22 @@ Definition filter_referrers (refs : list item) (at_ : str) : list item :=
 
 Record response := mkResp {
   rs_status : N;            (* HTTP status *)
-  rs_ctype_ok : bool;       (* Content-Type is the image index type (referrers only) *)
+  rs_name_unknown : bool;   (* a 404 whose error body carries the code NAME_UNKNOWN *)
+  rs_ctype : str;           (* Content-Type header value, verbatim (referrers only) *)
   rs_json_ok : bool;        (* the body starts with a JSON document of the expected shape *)
   rs_doc_len : N;           (* length of that document *)
   rs_total_len : N;         (* length of the whole body *)
   rs_items : list item;     (* what the whole document decodes to *)
-  rs_link : str;            (* Link header, [] = absent *)
+  rs_links : list str;      (* the Link header lines in order, [] = absent *)
   rs_fhdr : str;            (* OCI-Filters-Applied header *)
   rs_fann : str             (* filtersApplied annotation of the index *)
 }.
+
+(* http.Header.Get: the first line only *)
+Definition rs_link (rs : response) : str := hd [] (rs_links rs).
+
+(* ocispec.MediaTypeImageIndex (pinned dependency image-spec v1.1.1) *)
+Definition mediaTypeImageIndex : str := b "application/vnd.oci.image.index.v1+json".
 
 Inductive kind := KTags | KCatalog | KReferrers.
 
@@ -133,7 +140,7 @@ Record cfg := mkCfg {
 }.
 
 Inductive outcome :=
-  Done | ErrStatus | ErrCType | ErrDecode | ErrCallback | ErrLink | ErrResolve | ErrSize | OutOfFuel.
+  Done | ErrStatus | ErrUnsupported | ErrCType | ErrDecode | ErrCallback | ErrLink | ErrResolve | ErrSize | OutOfFuel.
 
 Record trace := mkTrace { t_reqs : list url; t_pages : list (list item); t_out : outcome }.
 
@@ -149,10 +156,21 @@ Definition mk_request (c : cfg) (u : url) (last : str) : url :=
 Definition body_fits (c : cfg) (rs : response) : bool :=
   rs_json_ok rs && (Z.of_N (rs_doc_len rs) <=? eff_limit (c_limit c))%Z.
 
+(* a non-200 answer: the referrers API reads a 404 without NAME_UNKNOWN as "not supported" *)
+Definition status_error (c : cfg) (rs : response) : outcome :=
+  match c_kind c with
+  | KReferrers => if (rs_status rs =? 404) && negb (rs_name_unknown rs) then ErrUnsupported else ErrStatus
+  | _ => ErrStatus
+  end.
+
+(* the Content-Type must be the image index type, compared verbatim (no parameters) *)
+Definition ctype_bad (c : cfg) (rs : response) : bool :=
+  match c_kind c with KReferrers => negb (str_eqb (rs_ctype rs) mediaTypeImageIndex) | _ => false end.
+
 (* status / content type / decode / client-side filter of one response *)
 Definition handle (c : cfg) (rs : response) : outcome + list item :=
-  if negb (rs_status rs =? 200) then inl ErrStatus
-  else if (match c_kind c with KReferrers => negb (rs_ctype_ok rs) | _ => false end) then inl ErrCType
+  if negb (rs_status rs =? 200) then inl (status_error c rs)
+  else if ctype_bad c rs then inl ErrCType
   else if negb (body_fits c rs) then inl ErrDecode
   else match c_kind c with
        | KReferrers =>
@@ -281,8 +299,8 @@ Section Registry.
   Definition reg_serve (i : nat) (rq : url) : response :=
     let d := ds i in
     let '(items, more, lq) := reg_page rk L cap rq d in
-    mkResp 200 true true (d_doc_len d) (d_doc_len d + d_pad d) items
-           (if more then c_lt :: render i rq (mkUrl (u_path rq) lq) ++ c_gt :: trailer i else [])
+    mkResp 200 false mediaTypeImageIndex true (d_doc_len d) (d_doc_len d + d_pad d) items
+           (if more then [c_lt :: render i rq (mkUrl (u_path rq) lq) ++ c_gt :: trailer i] else [])
            (d_fhdr d) (d_fann d).
 End Registry.
 
@@ -298,6 +316,76 @@ Definition tag_schema (limit : Z) (found : bool) (size : Z) (items : list item) 
        | [] => ([], Done)
        | f => if cb_fail 0%nat then ([f], ErrCallback) else ([f], Done)
        end.
+
+(* ---------- Repository.Referrers: capability detection around the two paths ---------- *)
+
+Inductive rstate := RUnknown | RSupported | RUnsupported.
+
+(* errors.Is(err, errdef.ErrUnsupported); cb_unsupp: the callback's own error is of that class *)
+Definition unsupported_class (cb_unsupp : bool) (o : outcome) : bool :=
+  match o with
+  | ErrUnsupported | ErrCType => true
+  | ErrCallback => cb_unsupp
+  | _ => false
+  end.
+
+Record wresult := mkW {
+  w_reqs : list url;             (* referrers API requests *)
+  w_pages : list (list item);    (* all callback arguments *)
+  w_out : outcome;
+  w_fell_back : bool;            (* referrersByTagSchema was run *)
+  w_state : rstate               (* capability afterwards *)
+}.
+
+Definition no_pages (t : trace) : bool := match t_pages t with [] => true | _ => false end.
+
+(* api: the run of referrersByAPI; ts k: the run of referrersByTagSchema after k callback
+   invocations.  The tag schema is tried only when the API is known to be missing, or when
+   it answered "unsupported" before any page was handed to the callback. *)
+Definition referrers_wrap (st : rstate) (cb_unsupp : bool) (api : trace)
+           (ts : nat -> list (list item) * outcome) : wresult :=
+  match st with
+  | RUnsupported => mkW [] (fst (ts 0%nat)) (snd (ts 0%nat)) true st
+  | RSupported => mkW (t_reqs api) (t_pages api) (t_out api) false st
+  | RUnknown =>
+    match t_out api with
+    | Done => mkW (t_reqs api) (t_pages api) Done false RSupported
+    | o => if unsupported_class cb_unsupp o && no_pages api
+           then mkW (t_reqs api) (fst (ts 0%nat)) (snd (ts 0%nat)) true RUnsupported
+           else mkW (t_reqs api) (t_pages api) o false RUnknown
+    end
+  end.
+
+(* the code before the fix: any error of the unsupported class, the callback's included and
+   after delivered pages, switched to the tag schema *)
+Definition referrers_wrap_prefix (st : rstate) (cb_unsupp : bool) (api : trace)
+           (ts : nat -> list (list item) * outcome) : wresult :=
+  match st with
+  | RUnsupported => mkW [] (fst (ts 0%nat)) (snd (ts 0%nat)) true st
+  | RSupported => mkW (t_reqs api) (t_pages api) (t_out api) false st
+  | RUnknown =>
+    match t_out api with
+    | Done => mkW (t_reqs api) (t_pages api) Done false RSupported
+    | o => if unsupported_class cb_unsupp o
+           then let r := ts (length (t_pages api)) in
+                mkW (t_reqs api) (t_pages api ++ fst r) (snd r) true RUnsupported
+           else mkW (t_reqs api) (t_pages api) o false RUnknown
+    end
+  end.
+
+(* pingReferrers (used before pushing / deleting a manifest with a subject): the capability
+   is decided by one GET of the referrers endpoint; Some b = answer, None = error *)
+Definition ping (st : rstate) (rs : response) : rstate * option bool :=
+  match st with
+  | RSupported => (st, Some true)
+  | RUnsupported => (st, Some false)
+  | RUnknown =>
+    if rs_status rs =? 200 then
+      if str_eqb (rs_ctype rs) mediaTypeImageIndex then (RSupported, Some true) else (RUnsupported, Some false)
+    else if rs_status rs =? 404 then
+      if rs_name_unknown rs then (RUnknown, None) else (RUnsupported, Some false)
+    else (RUnknown, None)
+  end.
 
 (* ---------- content/oci listTags ---------- *)
 
